@@ -136,134 +136,43 @@ theorem maskedRows_shows (cw : String → Nat) (caps : Caps) :
 
 /-! ### `RowsOkM` from the frame-level hypotheses -/
 
-/-- Cell by cell: where the new row has an image cell, the previous frame's cell is narrow. -/
-def OverNarrow (cw : String → Nat) : List Cell → List Cell → Prop
-  | l :: ls, n :: ns => (n.sixel = true → advance cw l = 0) ∧ OverNarrow cw ls ns
-  | _, _ => True
-
-theorem imgNarrow_map_phi (cw : String → Nat) (caps : Caps) :
-    ∀ (ls ns : List Cell) (k : Nat), OverNarrow cw ls ns → ImgNarrow k (ls.map (phi cw caps)) ns := by
-  intro ls
-  induction ls with
-  | nil => intro ns k _; cases k <;> simp [ImgNarrow]
-  | cons l ls ih =>
-    intro ns k h
-    cases ns with
-    | nil => cases k <;> simp [ImgNarrow]
-    | cons n ns =>
-      cases k with
-      | succ k => simp only [List.map_cons, ImgNarrow]; exact ih ns k h.2
-      | zero => simp only [List.map_cons, ImgNarrow]; exact ⟨fun hs => h.1 hs, ih ns _ h.2⟩
-
-/-- Cell by cell: where the new row has an image cell, the terminal row holds no head of a wide glyph. -/
-def TermNarrow : List DCell → List Cell → Prop
-  | d :: ds, n :: ns => (n.sixel = true → ∀ g w st lp lk, d = DCell.glyph g w st lp lk → w ≤ 1) ∧ TermNarrow ds ns
-  | _, _ => True
-
-theorem wf_eRow_img : ∀ (r : List DCell) (ns : List Cell) (k : Nat), WFRow k r → TermNarrow r ns →
-    ∃ V : List VCell, r = eRow k V ∧ V.length = r.length ∧ (∀ v ∈ V, VOk v) ∧ ImgNarrow k V ns := by
-  intro r
-  induction r with
-  | nil => intro ns k _ _; exact ⟨[], by cases k <;> rfl, rfl, by simp, by cases k <;> simp [ImgNarrow]⟩
-  | cons x r ih =>
-    intro ns k h hn
-    have hn' : ∀ n ns', ns = n :: ns' → TermNarrow r ns' := by
-      intro n ns' e; subst e; exact hn.2
-    have tail : ∀ (k' : Nat), WFRow k' r → ∃ V : List VCell, r = eRow k' V ∧ V.length = r.length ∧ (∀ v ∈ V, VOk v) ∧
-        ImgNarrow k' V ns.tail := by
-      intro k' h'
-      cases ns with
-      | nil => exact ih [] k' h' (by cases r <;> trivial)
-      | cons n ns' => exact ih ns' k' h' hn.2
-    cases k with
-    | zero =>
-      cases x with
-      | glyph g w st lp lk =>
-        obtain ⟨hw, h'⟩ := h
-        obtain ⟨V, e, hl, hv, hi⟩ := tail (w - 1) h'
-        refine ⟨(DCell.glyph g w st lp lk, w - 1) :: V, by simp [eRow, ← e], by simp [hl], ?_, ?_⟩
-        · intro v hv'
-          rcases List.mem_cons.mp hv' with rfl | hv'
-          · left; exact ⟨g, st, lp, lk, by simp; omega⟩
-          · exact hv v hv'
-        · cases ns with
-          | nil => simp [ImgNarrow]
-          | cons n ns' =>
-            simp only [ImgNarrow]
-            refine ⟨fun hs => ?_, hi⟩
-            have := hn.1 hs g w st lp lk rfl
-            omega
-      | cont => exact absurd h (by simp [WFRow])
-      | poison =>
-        obtain ⟨V, e, hl, hv, hi⟩ := tail 0 h
-        refine ⟨(DCell.poison, 0) :: V, by simp [eRow, ← e], by simp [hl], ?_, ?_⟩
-        · intro v hv'
-          rcases List.mem_cons.mp hv' with rfl | hv'
-          · right; exact ⟨rfl, rfl⟩
-          · exact hv v hv'
-        · cases ns with
-          | nil => simp [ImgNarrow]
-          | cons n ns' => simp only [ImgNarrow]; exact ⟨fun _ => trivial, hi⟩
-    | succ k =>
-      cases x with
-      | glyph g w st lp lk => exact absurd h (by simp [WFRow])
-      | poison => exact absurd h (by simp [WFRow])
-      | cont =>
-        obtain ⟨V, e, hl, hv, hi⟩ := tail k h
-        refine ⟨(DCell.poison, 0) :: V, by simp [eRow, ← e], by simp [hl], ?_, ?_⟩
-        · intro v hv'
-          rcases List.mem_cons.mp hv' with rfl | hv'
-          · right; exact ⟨rfl, rfl⟩
-          · exact hv v hv'
-        · cases ns with
-          | nil => simp [ImgNarrow]
-          | cons n ns' => simp only [ImgNarrow]; exact hi
-
-/-- Row by row (three grids of equal height). -/
-def GridOverNarrow (cw : String → Nat) (refresh : Bool) : List (List DCell) → Grid → Grid → Prop
-  | r :: rs, l :: ls, n :: ns =>
-      (refresh = false → OverNarrow cw l n) ∧ (refresh = true → TermNarrow r n) ∧ GridOverNarrow cw refresh rs ls ns
-  | _, _, _ => True
-
 theorem rowsOkM_of (cw : String → Nat) (caps : Caps) (refresh : Bool) (C : Nat) :
     ∀ (G : List (List DCell)) (ls ns : Grid), G.length = ls.length → ls.length = ns.length →
       (∀ r ∈ G, r.length = C) → (∀ l ∈ ls, l.length = C) →
       (refresh = false → G = expected cw caps ls) → (refresh = true → ∀ r ∈ G, WFRow 0 r) →
-      GridOverNarrow cw refresh G ls ns →
       RowsOkM cw caps refresh C G ls ns := by
   intro G
   induction G with
   | nil =>
-    intro ls ns hl hl2 _ _ _ _ _
+    intro ls ns hl hl2 _ _ _ _
     cases ls with
     | nil => cases ns with
       | nil => trivial
       | cons _ _ => simp at hl2
     | cons _ _ => simp at hl
   | cons r G ih =>
-    intro ls ns hl hl2 hG hL hag hwf hnar
+    intro ls ns hl hl2 hG hL hag hwf
     cases ls with
     | nil => simp at hl
     | cons l ls =>
       cases ns with
       | nil => simp at hl2
       | cons n ns =>
-        obtain ⟨n1, n2, n3⟩ := hnar
         refine ⟨?_, ih ls ns (by simpa using hl) (by simpa using hl2) (fun r hr => hG r (by simp [hr]))
           (fun l hl' => hL l (by simp [hl']))
           (fun h => by have := hag h; simp only [expected, List.map_cons, List.cons.injEq] at this; exact this.2)
-          (fun h r hr => hwf h r (by simp [hr])) n3⟩
+          (fun h r hr => hwf h r (by simp [hr]))⟩
         cases refresh with
         | false =>
           have := hag rfl
           simp only [expected, List.map_cons, List.cons.injEq] at this
           refine ⟨l.map (phi cw caps), by rw [this.1, eRow_map_phi], by simp [hL l (by simp)], ?_,
-            fun _ => relV_map_phi cw caps l, imgNarrow_map_phi cw caps l n 0 (n1 rfl)⟩
+            fun _ => relV_map_phi cw caps l⟩
           intro v hv
           obtain ⟨c, _, rfl⟩ := List.mem_map.mp hv
           exact phi_ok cw caps c
         | true =>
-          obtain ⟨V, e, hlen, hv, hi⟩ := wf_eRow_img r n 0 (hwf rfl r (by simp)) (n2 rfl)
-          exact ⟨V, e, by rw [hlen]; exact hG r (by simp), hv, fun h => by simp at h, hi⟩
+          obtain ⟨V, e, hlen, hv⟩ := wf_eRow r 0 (hwf rfl r (by simp))
+          exact ⟨V, e, by rw [hlen]; exact hG r (by simp), hv, fun h => by simp at h⟩
 
 end VaxisModel.Lemmas.RenderImages
